@@ -30,9 +30,9 @@ from vf.ref import http1 as ref
 PROPERTY = "C12"
 LEVEL = "exploration"
 ENGINE = "sansio"
-BUDGET = {"quick": (900, 18), "thorough": (30000, 200)}
+BUDGET = {"quick": (2500, 18), "thorough": (40000, 200)}
 WORKERS = {"quick": 4, "thorough": 16}
-REQUIRED = ["page.escaped", "page.content_type", "page.framed", "pages.h1", "pages.reflecting", "down.parse"]
+REQUIRED = ["page.escaped", "page.content_type", "page.framed", "pages.h1", "pages.h2", "pages.head_only", "pages.reflecting", "pages.reflecting.h2", "down.parse", "down.parse.h2"]
 TECHNIQUE = "runtime monitoring: sans-io exploration of every error source with markup markers; wire bytes re-read by an independent parser, page body matched against the escaped-template language"
 RULE = (
     "case = (mode, client protocol, error source, marker kind and position, optional preceding keep-alive request, method incl. HEAD, "
@@ -56,6 +56,15 @@ PAGE = re.compile(rb"^<html>\s*<head>\s*<title>(\d{3}) ([^<>&]*)</title>\s*</hea
 ENTITY = re.compile(rb"&(?:amp|lt|gt|quot|#x27);")
 URI_CHARS = re.compile(rb"^[A-Za-z0-9\-._~:/?#\[\]@!$&'()*+,;=%]+$")
 OPT_KEYS = ("body_size_limit", "connection_strategy", "validate_inbound_headers")
+
+
+def classify(kind, info):
+    """Mechanism from properties of the input / history."""
+    if kind == "page.framed" and info.get("head_unparsed_by_mitmproxy") and info.get("ok_as_get"):
+        # the trigger is a HEAD request with a well-formed head (reference accepts it, RFC 3986-clean target) that mitmproxy's own
+        # request-line parser refuses (no flow was created for it): the 400 page is sent WITH a body
+        return "head-request-line-refused-by-parser-gets-page-with-body"
+    return None
 
 
 def escaped_only(inner: bytes):
@@ -124,35 +133,6 @@ def run_h1(ctx, opts, case):
     reqs = case["reqs"]
     trigger = reqs[-1]
 
-    def responder(k, msg, peer):
-        m = TAG.search(msg["target"])
-        tag = m.group(0) if m else None
-        srv = case["server"]
-        if msg["method"] == "CONNECT" or (tag == trigger["tag"] and srv and srv["kind"] == "raw"):
-            if srv and srv["kind"] == "raw":
-                return srv["raw"], srv["close"]
-            return b"HTTP/1.1 200 OK\r\n\r\n", False
-        body = b"echo:" + (tag or b"?") + b":" + g.mb(case["marker"])
-        if msg["method"] == "HEAD":
-            return b"HTTP/1.1 200 OK\r\nx-tag: " + (tag or b"?") + b"\r\nContent-Length: %d\r\n\r\n" % len(body), False
-        return b"HTTP/1.1 200 OK\r\nx-tag: " + (tag or b"?") + b"\r\nContent-Type: text/html\r\nContent-Length: %d\r\n\r\n" % len(body) + body, False
-
-    class RawPeer(peers.H1ServerPeer):
-        """Answers as soon as a request head is complete (the reference may consider the proxied CONNECT/request fine or not)."""
-
-        def on_data(self_, data):
-            if case["server"] and case["server"]["kind"] == "raw" and b"\r\n\r\n" in self_.received and not self_.closed and not self_.answered:
-                st, msgs, rest = ref.parse_requests(bytes(self_.received))
-                if msgs:
-                    return peers.H1ServerPeer.on_data(self_, data)
-                self_.answered = 1
-                self_.send(case["server"]["raw"])
-                if case["server"]["close"]:
-                    self_.close()
-                    self_.closed = True
-                return
-            peers.H1ServerPeer.on_data(self_, data)
-
     def open_plan(drv, conn, n):
         if case["open_error"] is not None:
             return case["open_error"]
@@ -164,7 +144,7 @@ def run_h1(ctx, opts, case):
         options=opts,
         rng=r,
         addons=[h1case.ForceHttp(), ViaAddon(case)],
-        server_factory=lambda drv, conn: RawPeer(responder, r, case["server_seg"]),
+        server_factory=make_origin(case, r, trigger["tag"]),
         open_plan=open_plan,
         schedule=case["schedule"],
         snapshot=sansio.http_snapshot,
@@ -197,12 +177,34 @@ def run_h1(ctx, opts, case):
     if down:
         methods = [q["method"] for q in reqs]
         ctx.count("down.parse")
-        st, msgs, rest = ref.parse_responses(down, methods, eof=True)
+        # relayed origin messages that precede the own page are not this property's subject (validation off relays junk verbatim):
+        # judge the byte range that starts at the own page's status line (the page announces close, so it must be the tail)
+        pos = down.find(b"\r\nServer: mitmproxy")
+        if pos >= 0:
+            start = down.rfind(b"HTTP/1.", 0, pos)
+            pre = down[:start]
+            j = 0
+            if pre:
+                j = len(reqs) - 1
+                stp, pmsgs, prest = ref.parse_responses(pre, methods, eof=False)
+                if stp == "ok" and not prest:
+                    j = min(sum(1 for m_ in pmsgs if not 100 <= m_["status"] < 200), len(reqs) - 1)
+                else:
+                    ctx.count("preceding_relayed_bytes_unparsed")
+            down_seg, methods = down[start:], methods[j:]
+        else:
+            down_seg = down
+        st, msgs, rest = ref.parse_responses(down_seg, methods, eof=True)
         if (st != "ok" or rest) and not strict_method_defined(trigger["raw"]):
-            st, msgs, rest = ref.parse_responses(down, methods[:-1] + ["GET"], eof=True)
+            st, msgs, rest = ref.parse_responses(down_seg, methods[:-1] + ["GET"], eof=True)
             ctx.count("method_undefined_fallback")
-        if st != "ok" or rest:
-            ctx.violation("page.framed", wit(problem="bytes sent to the client are not a complete response sequence", status=st, rest_or_reason=rest if isinstance(rest, str) else bytes(rest)[:200]))
+        if (st != "ok" or rest) and b"Server: mitmproxy" not in down:
+            ctx.count("down_unparsed_without_own_page")  # e.g. invalid origin header names relayed with validation off: not an error page
+        elif st != "ok" or rest:
+            info = {"head_unparsed_by_mitmproxy": reqs[-1]["method"] == "HEAD" and not any(TAG.search(s_["request"]["path"].encode("latin-1", "replace")) and TAG.search(s_["request"]["path"].encode("latin-1", "replace")).group(0) == trigger["tag"] for _, _, _, s_ in d.hooks if s_ and s_.get("request"))}
+            st2, msgs2, rest2 = ref.parse_responses(down_seg, methods[:-1] + ["GET"], eof=True)
+            info["ok_as_get"] = st2 == "ok" and not rest2 and bool(msgs2) and msgs2[-1]["status"] == 400 and dict(msgs2[-1]["headers"]).get("server", b"").startswith(b"mitmproxy")
+            ctx.violation("page.framed", wit(problem="bytes sent to the client are not a complete response sequence", status=st, rest_or_reason=rest if isinstance(rest, str) else bytes(rest)[:200]), classify("page.framed", info))
         else:
             for idx, msg in enumerate(msgs):
                 hd = dict(msg["headers"])
@@ -212,7 +214,10 @@ def run_h1(ctx, opts, case):
                 if 100 <= msg["status"] < 200 and not msg["headers"]:
                     continue
                 if not own:
-                    # another message made by mitmproxy itself (e.g. the plain 502 answer to CONNECT)
+                    if case["source"] != "connect-eager-fail":
+                        ctx.count("relayed_untagged_origin_message")  # raw origin answer relayed (validation off / proxy refusal body): not mitmproxy's text
+                        continue
+                    # a message made by mitmproxy itself that is not an error page: the plain 502 answer to CONNECT
                     ctx.count("other_own_message")
                     ctx.seen("other_own", f"{msg['status']} ct={hd.get('content-type')}")
                     looks_html = hd.get("content-type", b"").lower().startswith(b"text/html") or msg["body"].lstrip()[:1] == b"<"
@@ -262,14 +267,141 @@ def run_h1(ctx, opts, case):
     return sig, bool(page_status and reached), sample
 
 
+def make_origin(case, r, trigger_tag):
+    """server_factory for both client protocols: HTTP/1 origin / upstream proxy answering the trigger with the case's raw bytes."""
+
+    def responder(k, msg, peer):
+        m = TAG.search(msg["target"])
+        tag = m.group(0) if m else None
+        srv = case["server"]
+        if msg["method"] == "CONNECT" or (tag == trigger_tag and srv and srv["kind"] == "raw"):
+            if srv and srv["kind"] == "raw":
+                return srv["raw"], srv["close"]
+            return b"HTTP/1.1 200 OK\r\n\r\n", False
+        body = b"echo:" + (tag or b"?") + b":" + g.mb(case["marker"])
+        if msg["method"] == "HEAD":
+            return b"HTTP/1.1 200 OK\r\nx-tag: " + (tag or b"?") + b"\r\nContent-Length: %d\r\n\r\n" % len(body), False
+        return b"HTTP/1.1 200 OK\r\nx-tag: " + (tag or b"?") + b"\r\nContent-Type: text/html\r\nContent-Length: %d\r\n\r\n" % len(body) + body, False
+
+    class RawPeer(peers.H1ServerPeer):
+        """Answers as soon as a request head is complete (the reference may or may not accept what the proxy wrote)."""
+
+        def on_data(self_, data):
+            if case["server"] and case["server"]["kind"] == "raw" and b"\r\n\r\n" in self_.received and not self_.closed and not self_.answered:
+                st, msgs, rest = ref.parse_requests(bytes(self_.received))
+                if msgs or st != "reject":
+                    return peers.H1ServerPeer.on_data(self_, data)
+                self_.answered = 1
+                self_.send(case["server"]["raw"])
+                if case["server"]["close"]:
+                    self_.close()
+                    self_.closed = True
+                return
+            peers.H1ServerPeer.on_data(self_, data)
+
+    return lambda drv, conn: RawPeer(responder, r, case["server_seg"])
+
+
+def run_h2(ctx, opts, case):
+    from vf.peers_c07_h2 import H2ClientPeer, H2Request
+
+    r = ctx.rng
+    mode = case["mode"]
+    reqs = case["reqs"]
+    trigger = reqs[-1]
+    client = sansio.make_client(mode)
+    client.alpn = b"h2"
+    d = sansio.Driver(
+        h1case.top_factory(mode),
+        client=client,
+        options=opts,
+        rng=r,
+        addons=[h1case.ForceHttp(), ViaAddon(case)],
+        server_factory=make_origin(case, r, trigger["tag"]),
+        open_plan=lambda drv, conn, n: case["open_error"],
+        schedule=case["schedule"],
+        snapshot=sansio.http_snapshot,
+        max_steps=6000,
+    )
+    if mode == "transparent":
+        d.context.server.address = ("example.com", 80)
+    peer = H2ClientPeer([H2Request(q["headers"], q["body"], chunk=r.choice([1, 4, 16384])) for q in reqs], cut=lambda b: peers.cut(b, r, case["client_seg"]))
+    d.attach_client_peer(peer)
+    d.start()
+    d.run()
+    d.teardown()
+    if d.budget_exceeded:
+        ctx.count("inconclusive_cases")
+        return None
+    for e in d.exceptions:
+        ctx.seen("layer_exceptions", f"{e[0]}@{e[1]}")
+    errors = [snap["error"] for _, name, _, snap in d.hooks if name == "error" and snap]
+
+    def wit(**kw):
+        w = {"proto": "h2", "mode": mode, "source": case["source"], "marker": case["marker"], "requests": [(q["headers"], q["body"]) for q in reqs], "options": case["options"], "validate": case["validate"],
+             "server": (case["server"] or {}).get("raw", b"")[:300] if case["server"] else None, "open_error": case["open_error"], "hooks": d.hook_names()[:20], "flow_errors": errors[:3],
+             "streams": {k: {"headers": v["headers"], "data": v["data"][:600], "ended": v["ended"], "reset": v["reset"]} for k, v in peer.streams.items()}, "goaway": peer.terminated}
+        w.update(kw)
+        return w
+
+    ctx.count("down.parse.h2")
+    if peer.protocol_errors and trigger["method"] == "HEAD" and "InvalidBodyLengthError" in peer.protocol_errors[0]:
+        # mitmproxy's HTTP/2 error page carries DATA in answer to HEAD; the property's framing clause is about HTTP/1 only -> evidence, not a violation
+        ctx.count("h2.page_with_data_in_answer_to_head")
+    elif peer.protocol_errors and not case["validate"] and case["server"] and case["server"]["kind"] == "raw":
+        ctx.count("h2.relayed_origin_message_refused_by_client_library")  # validation off: the origin's malformed head is relayed, not an own page
+    elif peer.protocol_errors:
+        ctx.violation("page.framed", wit(problem="the h2 library refuses what mitmproxy sent to the client", errors=peer.protocol_errors[:2]))
+    page_status = None
+    reached = False
+    for sid, st in peer.streams.items():
+        if st["headers"] is None:
+            continue
+        hd = {}
+        for n, v in st["headers"]:
+            hd.setdefault(n.decode("latin-1").lower(), v)
+        if "x-tag" in hd:
+            continue
+        if not hd.get("server", b"").startswith(b"mitmproxy"):
+            ctx.count("relayed_untagged_origin_message")
+            continue
+        ctx.count("pages.h2")
+        page_status = int(hd.get(":status", b"0"))
+        ctx.count("page.framed")
+        problem = None
+        if not st["ended"] or st["reset"] is not None:
+            problem = "page stream not ended cleanly"
+        elif "content-length" in hd and hd["content-length"] != b"%d" % len(st["data"]):
+            problem = "content-length differs from DATA length"
+        if problem:
+            ctx.violation("page.framed", wit(problem=problem, stream=sid))
+        rch, _ = judge_page(ctx, wit, case, page_status, [(n.decode("latin-1").lower(), v) for n, v in st["headers"]], st["data"], "h2")
+        reached = reached or rch
+    if peer.terminated:
+        ctx.count("h2.goaway")
+        ctx.seen("h2_goaway_sources", case["source"])
+    if reached:
+        ctx.count("pages.reflecting")
+        ctx.count("pages.reflecting.h2")
+        ctx.seen("sources_reflecting", "h2:" + case["source"])
+    if page_status:
+        ctx.seen("sources_with_page", f"h2:{case['source']}:{page_status}")
+    mk = g.MARKERS.index(next(t for t in g.MARKERS if (t % case["n"]) == case["marker"]))
+    sig = ("h2", mode.split(":")[0], case["source"], mk, trigger["method"], len(reqs), page_status, reached, case["validate"])
+    sample = {"proto": "h2", "mode": mode, "source": case["source"], "marker": case["marker"], "trigger_headers": trigger["headers"], "page_status": page_status, "reached": reached,
+              "page": next((v["data"][:400] for v in peer.streams.values() if v["headers"] and any(n == b"server" for n, _ in v["headers"])), None)}
+    return sig, bool(page_status and reached), sample
+
+
 def run_case(ctx, opts, defaults):
     r = ctx.rng
-    case = g.gen_case(r, ctx.case_index)
+    h2 = r.random() < 0.3
+    case = g.gen_h2_case(r, ctx.case_index) if h2 else g.gen_case(r, ctx.case_index)
     o = dict(defaults)
     o.update(case["options"])
     o["validate_inbound_headers"] = case["validate"]
     opts.update(**o)
-    return run_h1(ctx, opts, case)
+    return run_h2(ctx, opts, case) if h2 else run_h1(ctx, opts, case)
 
 
 def run(ctx):
